@@ -145,7 +145,7 @@ def model_abar(M):
 
 
 # --------------------------------------------------------------------------- driving the implementation
-def impl_apply(est, op):
+def impl_apply(est, op, n=3):
     """perform the operation on the real object; returns (exception or None, list of (caller array, copy))"""
     name, arg = op
     args = []
@@ -162,7 +162,6 @@ def impl_apply(est, op):
             else:
                 est.register_system(keep(S2), lb=keep([0.0, 0.25]), ub=keep([1.0, 1.5]))
         elif name == "register_bounds":
-            n = est.A.shape[1] if hasattr(est, "A") else 3
             if arg == "both":
                 est.register_bounds(lb=keep(np.full(n, 0.125)), ub=keep(1.0 + 0.5 * np.arange(n)))
             else:
@@ -174,7 +173,6 @@ def impl_apply(est, op):
         elif name == "register_background_adaptation":
             est.register_background_adaptation(keep(BG1 if arg == "replace" else BG2), add=(arg == "add"))
         elif name == "register_system_adaptation":
-            n = est.A.shape[1] if hasattr(est, "A") else 3
             est.register_system_adaptation(keep(np.full(n, 0.5) if arg == "replace" else 0.25 + 0.25 * np.arange(n)), add=(arg == "add"))
         elif name == "register_targets":
             if arg == "T1":
@@ -194,10 +192,19 @@ def new_est():
     return dreye.ReceptorEstimator(FILTERS.copy(), domain=DOM.copy())
 
 
+def _n_after(n, op):
+    if op[0] == "register_system":
+        return 3 if op[1] == "S3" else 2
+    return n
+
+
 def build(hist):
     est = new_est()
+    n = 0
     for i in hist:
-        impl_apply(est, OPS[i])
+        impl_apply(est, OPS[i], n=(n or 3))
+        if n or OPS[i][0] == "register_system":
+            n = _n_after(n, OPS[i])
     return est
 
 
@@ -216,10 +223,10 @@ def canon(x):
     return repr(x)
 
 
-def battery(est, order=1):
-    """list of (query name, callable); every callable gets fresh argument arrays; returns dict name -> (answer | exception text, args)"""
-    registered = hasattr(est, "A")
-    n = est.A.shape[1] if registered else 0
+def battery(est, order=1, n=0):
+    """list of (query name, callable); every callable gets fresh argument arrays; returns dict name -> (answer | exception text, args)
+    n = number of registered sources according to the reference model (0 = no system registered)"""
+    registered = n > 0
     Q = []
     sig2 = np.array([[1.0, 0.5, 0.25, 0.5, 1.0], [0.0, 1.0, 2.0, 1.0, 0.0]])
     Q.append(("capture", lambda a: est.capture(a), [sig2]))
@@ -267,12 +274,18 @@ def fresh_from(est):
     """a fresh estimator constructed directly from the currently registered values of `est` (read through its documented attributes)"""
     import dreye
 
-    f = dreye.ReceptorEstimator(np.array(est.filters), domain=np.array(est.domain), w=np.array(est.w), K=np.array(est.K), baseline=np.array(est.baseline))
-    if hasattr(est, "A"):
-        f.register_system(np.array(est.sources), domain=np.array(est.sources_domain), lb=np.array(est.lb), ub=np.array(est.ub))
-        if hasattr(est, "B"):
-            Wcur = np.array(est.W)
-            f.register_targets(np.array(est.B), W=(None if np.array_equal(Wcur, np.array(est.w)) else Wcur))
+    try:
+        f = dreye.ReceptorEstimator(np.array(est.filters), domain=np.array(est.domain), w=np.array(est.w), K=np.array(est.K), baseline=np.array(est.baseline))
+    except AttributeError:
+        return None  # registered values not readable under these names: differential oracle not observable
+    try:
+        if est.registered:
+            f.register_system(np.array(est.sources), domain=np.array(est.sources_domain), lb=np.array(est.lb), ub=np.array(est.ub))
+            if est.registered_targets:
+                Wcur = np.array(est.W)
+                f.register_targets(np.array(est.B), W=(None if np.array_equal(Wcur, np.array(est.w)) else Wcur))
+    except AttributeError:
+        return None
     return f
 
 
@@ -311,7 +324,7 @@ def _visit(hist, rec, seen):
         last = step == len(hist) - 1
         before = Bd.state_key(est)
         M2, ok = model_apply(M, op)
-        exc, args = impl_apply(est, op)
+        exc, args = impl_apply(est, op, n=(M["A"].shape[1] if M["A"] is not None else 3))
         if last:
             rec.trans()
             rec.path()
@@ -366,7 +379,8 @@ def _visit(hist, rec, seen):
     if registered:
         rec.distinct(key)
     # ---- (a) reference model on exact queries
-    ans1 = battery(est)
+    nn = M["A"].shape[1] if registered else 0
+    ans1 = battery(est, n=nn)
     key_after = Bd.state_key(est)
     if key_after != key:
         # informational only: a correct implementation may memoise; purity is decided semantically below
@@ -405,17 +419,20 @@ def _visit(hist, rec, seen):
                     _v(rec, "a", dict(query="in_hull", what="differs-from-reference-model", op=(OPS[hist[-1]][0] if hist else "init")), "in_hull differs from the reference model's gamut after history %s" % hname, case,
                        observed=np.asarray(raw), expected=mg, script=_script(hist))
     # ---- (c)/(e) purity: second run, reversed order on a replayed object
-    ans2 = battery(est)
+    ans2 = battery(est, n=nn)
     est_r = build(hist)
-    ans3 = battery(est_r, order=-1)
+    ans3 = battery(est_r, order=-1, n=nn)
     # ---- (c') queries interleaved with the history must not influence later answers:
     #      replay the history with the full battery after EVERY step, then compare the final answers
     est_q = new_est()
     battery(est_q)
+    nq = 0
     for i in hist:
-        impl_apply(est_q, OPS[i])
-        battery(est_q, order=(1 if i % 2 else -1))
-    ans5 = battery(est_q)
+        impl_apply(est_q, OPS[i], n=(nq or 3))
+        if nq or OPS[i][0] == "register_system":
+            nq = _n_after(nq, OPS[i])
+        battery(est_q, order=(1 if i % 2 else -1), n=nq)
+    ans5 = battery(est_q, n=nn)
     for q, ((st, cv, raw), mut) in ans1.items():
         (st5, cv5, raw5), _ = ans5.get(q, (("missing", None, None), False))
         same = (st, cv) == (st5, cv5)
@@ -427,7 +444,11 @@ def _visit(hist, rec, seen):
     # ---- (b) differential: fresh object from the registered values
     try:
         fr = fresh_from(est)
-        ans4 = battery(fr)
+        if fr is None:
+            rec.count("differential-not-observable")
+            ans4 = None
+        else:
+            ans4 = battery(fr, n=nn)
     except Exception as e:  # noqa
         _v(rec, "b", dict(what="fresh-object-construction", **exc_sig(e)), "could not construct a fresh object from the registered values: %r" % (e,), case)
         ans4 = None
